@@ -91,7 +91,7 @@ def design_checks(ctx, kd):
 def add_strategy(lines, offset=0):
     out = []
     for i, l in enumerate(lines):
-        out.append('{"strategy":"%s",' % STRATEGIES[(i + offset) % len(STRATEGIES)] + l[1:])
+        out.append('{"strategy":"%s","hookimpl":"%s",' % (STRATEGIES[(i + offset) % len(STRATEGIES)], ("md5", "ngdp")[(i // 3 + offset) % 2]) + l[1:])
     return out
 
 
@@ -115,10 +115,10 @@ def program_of(evs):
     if not evs:
         return None
     h = evs[0]
-    ops = [{k: v for k, v in e.items() if k not in ("res", "rs", "obs", "seq", "msg")} for e in evs[1:] if e.get("op") != "hang"]
+    ops = [{k: v for k, v in e.items() if k not in ("res", "rs", "obs", "seq", "msg", "now")} for e in evs[1:] if e.get("op") != "hang"]
     hung = [e["during"] for e in evs[1:] if e.get("op") == "hang"]
     return {"kinds": h.get("kinds"), "caps": h.get("caps"), "hooks": h.get("hooks"), "keys": h.get("keys"),
-            "strategy": h.get("strategy"), "ops": ops + hung}
+            "strategy": h.get("strategy"), "hookimpl": h.get("hookimpl", "md5"), "ops": ops + hung}
 
 
 def judge_trace(ctx, trace, source, kd, max_events=60000):
